@@ -4,6 +4,13 @@
           `S <hex>`   prop shorthand rewrite + parse     → `<rewritten> <tagval> <args> <required>`
           `U <r><m> <hex>`  user-defined tag scanner (Required field r) over a field tagged with the text
                                                          → `<tagval> <args> <required>` of the scanned property
+          `H <m><r><w> <hexT> <ops> <hexT2>`  history: property A is created from T and its arguments are edited, property B
+                 is created from T2.  m = d direct NewProperty | s one scan, A and B two fields of the same component |
+                 t two scans (two registries) | a two real applications (`wire` tag, no candidate; A edited by a user
+                 post-processor of the first one); <r><w> = the scanner configuration as in U;
+                 ops = `-` or `,`-joined  <k><hexname>:<hexitem>/<hexitem>…  with k = S Args().Set | A Args().Add |
+                 s SetArg | a AddArg (nothing after the colon = no items)
+                                                         → `<A after the edits> | <B>` (+ ` | <start1> <start2>` for m = a)
     args are printed sorted by name:  name=item,item;name=…   (all hex, `-` = empty, `.` = no args)
 -/
 import Ioc.Tag
@@ -19,6 +26,30 @@ def showParsed (r : Option (Bytes × Args)) : String :=
   match r with
   | none => "panic"
   | some (v, a) => toHex v ++ " " ++ showArgs a ++ " " ++ (if isRequired a then "1" else "0")
+
+def parseItems (s : String) : Option (List Bytes) :=
+  if s = "" then some [] else (s.splitOn "/").mapM fromHex
+
+def parseOp (s : String) : Option ArgOp :=
+  match s.toList with
+  | k :: rest =>
+    match (String.ofList rest).splitOn ":" with
+    | [n, its] =>
+      match fromHex n, parseItems its with
+      | some n, some its =>
+        if k = 'S' ∨ k = 's' then some ⟨false, n, its⟩
+        else if k = 'A' ∨ k = 'a' then some ⟨true, n, its⟩
+        else none
+      | _, _ => none
+    | _ => none
+  | [] => none
+
+def parseOps (s : String) : Option (List ArgOp) :=
+  if s = "-" then some [] else (s.splitOn ",").mapM parseOp
+
+/-- an application whose only injection point has no candidate starts iff the point is optional
+    (dependency_further_matching_processors.go:36-43) -/
+def showStart (a : Args) : String := if isRequired a then "err" else "ok"
 
 def handle (line : String) : String :=
   match line.splitOn " " with
@@ -43,6 +74,15 @@ def handle (line : String) : String :=
       | [r, _] => showParsed (scan? (r == '1') s)
       | _ => "bad-line"
     | none => "bad-line"
+  | ["H", mc, h1, ops, h2] =>
+    match mc.toList, fromHex h1, parseOps ops, fromHex h2 with
+    | [m, r, _], some t, some os, some t2 =>
+      match hist? (m != 'd') (r == '1') t os t2 with
+      | none => "panic"
+      | some (a, b) =>
+        let base := showParsed (some a) ++ " | " ++ showParsed (some b)
+        if m == 'a' then base ++ " | " ++ showStart a.2 ++ " " ++ showStart b.2 else base
+    | _, _, _, _ => "bad-line"
   | _ => "bad-line"
 
 end Driver.Tag
